@@ -332,9 +332,14 @@ def check_case(case):
 
 # ------------------------------------------------------------ enumeration
 
+M61 = (1 << 61) - 1       # modulus of CPython's int hash: x and x + M61 are different values with equal hash(int)
+
+
 def boundary_vals(n):
   M = 1 << n
-  return sorted({0, 1, 2 % M, (M >> 1) - 1 if n > 1 else 0, M >> 1, (M - 2) % M, M - 1})
+  vals = {0, 1, 2 % M, (M >> 1) - 1 if n > 1 else 0, M >> 1, (M - 2) % M, M - 1}
+  if n >= 62: vals |= {M61, M61 + 1, M61 + 2}      # hash-congruent partners of 0, 1, 2: equality must not be decided by hashes
+  return sorted(vals)
 
 
 def boundary_ints(n):
